@@ -130,8 +130,11 @@ func (d *driver) step(ev map[string]any) bool {
 	return true
 }
 
-func (d *driver) begin(surface string, ids []int64, froms, nos []string) bool {
-	cfg := map[string]any{"surface": surface, "ids": ids, "froms": froms, "nos": nos}
+func (d *driver) begin(surface string, ids []int64, froms, nos []string, pids ...int64) bool {
+	if pids == nil {
+		pids = []int64{}
+	}
+	cfg := map[string]any{"surface": surface, "ids": ids, "froms": froms, "nos": nos, "pids": pids}
 	s, err := newSUT(d.r.tmp(), surface, kit.Canon(cfg).(map[string]any))
 	if err != nil {
 		d.r.rep.Infra("driver: cannot open the store: %v", err)
@@ -177,7 +180,7 @@ func (d *driver) randomTrace(tr int, c08 bool) {
 	sortInts(d.ids)
 	froms := []string{"u", "u1", "u 10"}
 	nos := []string{"n", "n1", "n/10"}
-	if !d.begin(surface, d.ids, froms, nos) {
+	if !d.begin(surface, d.ids, froms, nos, 1, 2) {
 		return
 	}
 	defer d.end()
@@ -302,6 +305,290 @@ func (d *driver) randomTrace(tr int, c08 bool) {
 		}
 		if lastLease && d.s.reclaims() != reclaimBefore+1 {
 			d.r.rep.Infra("closing the last lease did not reclaim the canonical entry (reclaims %d -> %d)", reclaimBefore, d.s.reclaims())
+			return
+		}
+	}
+}
+
+// ---- exact proposals (compat surface) -------------------------------------------------------
+
+// cmdState is what the store last reported for probe command pid of channel c.
+func (d *driver) cmdState(c string, pid int64) (present bool, base, last int64) {
+	ex := d.s.lastEx[c]
+	if ex == nil {
+		return false, 0, 0
+	}
+	cmds, _ := ex["cmds"].([]any)
+	for i, p := range d.s.pids {
+		if p == pid && i < len(cmds) {
+			m := kit.Canon(cmds[i]).(map[string]any)
+			return kit.Int(m, "p") != 0, kit.Int(m, "base"), kit.Int(m, "last")
+		}
+	}
+	return false, 0, 0
+}
+
+// freePid returns a command the store does not report as stored on c (0 = none).
+func (d *driver) freePid(c string, not ...int64) int64 {
+	var free []int64
+next:
+	for _, p := range d.s.pids {
+		for _, n := range not {
+			if n == p {
+				continue next
+			}
+		}
+		if present, _, _ := d.cmdState(c, p); !present {
+			free = append(free, p)
+		}
+	}
+	if len(free) == 0 {
+		return 0
+	}
+	return free[d.rng.Intn(len(free))]
+}
+
+// ends are the offsets a new proposal can be chained to, as far as the harness was told:
+// 0 and the last offsets of the proposals the store acknowledged.
+func (d *driver) ends(c string) []int64 {
+	out := []int64{0}
+	for _, sp := range d.s.stored[c] {
+		out = append(out, int64(sp.last()))
+	}
+	sortInts(out)
+	return out
+}
+
+// cleanRecs draws n records with distinct ids that are not stored anywhere and keys that are
+// neither stored in c nor repeated (acceptable to every append mode); nil if the pool is used up.
+func (d *driver) cleanRecs(c string, n int) []rec {
+	stored, keys := d.storedIDs(), d.storedKeys(c)
+	var out []rec
+	for try := 0; try < 60 && len(out) < n; try++ {
+		r := d.randRec(stored)
+		if stored[r.id] || (r.from != "" && r.no != "" && keys[[2]string{r.from, r.no}]) {
+			continue
+		}
+		stored[r.id] = true
+		if r.from != "" && r.no != "" {
+			keys[[2]string{r.from, r.no}] = true
+		}
+		out = append(out, r)
+	}
+	if len(out) < n {
+		return nil
+	}
+	return out
+}
+
+func psJSON(ps []sealedArg) []any {
+	out := make([]any, len(ps))
+	for i, p := range ps {
+		out[i] = map[string]any{"pid": p.pid, "recs": recsJSON(p.recs)}
+	}
+	return out
+}
+
+type sealedArg struct {
+	pid  int64
+	recs []rec
+}
+
+// exactTrace drives one compat store mostly through its exact-proposal path: chains of exact
+// appends, exact retries of the tail and of older proposals with and without a committed value
+// that still raises the stored watermark, conflicting offers, suffix replacements, interleaved
+// with plain appends, follower applies, truncation, retention, checkpoints, lease close /
+// reopen and database reopen.  Arguments come from what the store last returned and from what
+// the harness itself proposed; the environment contract of MessageLogX is respected (a
+// committed value never above the proposal's last offset; server-allocated ids only with ids
+// that are not stored and, at the frontier, with a command that is not stored).
+func (d *driver) exactTrace(tr int) {
+	pool := map[int64]bool{}
+	for len(pool) < 14 {
+		pool[1+d.rng.Int63n(2_000_000_000)] = true
+	}
+	d.ids = d.ids[:0]
+	for id := range pool {
+		d.ids = append(d.ids, id)
+	}
+	sortInts(d.ids)
+	froms := []string{"u", "u1", "u 10"}
+	nos := []string{"n", "n1", "n/10"}
+	if !d.begin("compat", d.ids, froms, nos, 1, 2, 3, 4, 5, 6, 7, 8) {
+		return
+	}
+	defer d.end()
+	steps := 30 + d.rng.Intn(30)
+	for i := 0; i < steps; i++ {
+		open := d.openChans()
+		var ev map[string]any
+		x := d.rng.Intn(100)
+		var c string
+		if len(open) > 0 {
+			c = open[d.rng.Intn(len(open))]
+			if len(open) > 1 && d.rng.Intn(4) > 0 {
+				c = open[0] // keep most of the work on one channel so that chains grow
+			}
+		}
+		leo, hw := d.s.lastLeo[c], d.s.lastHW[c]
+		switch {
+		case !d.s.dbIsOpen():
+			ev = kit.Ev("OpenDB")
+		case len(open) == 0 || x < 4:
+			cn := chanNames[d.rng.Intn(len(chanNames))]
+			if len(d.s.leases[cn]) >= 2 {
+				continue
+			}
+			ev = kit.Ev("OpenLease", "c", cn)
+		case x < 8:
+			ev = kit.Ev("CloseLease", "c", c)
+		case x < 10:
+			ev = kit.Ev("CloseDB")
+		case x < 36: // a new command at the frontier
+			pid := d.freePid(c)
+			rs := d.cleanRecs(c, 1+d.rng.Intn(2))
+			if pid == 0 || rs == nil {
+				continue
+			}
+			mode := []string{"strict", "alloc"}[d.rng.Intn(2)]
+			committed := int64(0)
+			if d.rng.Intn(4) == 0 {
+				committed = 1 + d.rng.Int63n(leo+int64(len(rs)))
+			}
+			ev = kit.Ev("ExAppend", "c", c, "pid", pid, "b", leo, "recs", recsJSON(rs), "mode", mode, "hw", committed)
+		case x < 58: // the exact retry of an acknowledged command
+			var cands []sealed
+			for _, p := range d.s.pids {
+				if sp, ok := d.s.stored[c][p]; ok {
+					cands = append(cands, sp)
+				}
+			}
+			if len(cands) == 0 {
+				continue
+			}
+			sp := cands[d.rng.Intn(len(cands))]
+			if x < 50 { // prefer an older one that can still raise the watermark
+				for _, o := range cands {
+					if int64(o.last()) < leo && int64(o.last()) > hw {
+						sp = o
+						break
+					}
+				}
+			}
+			last := int64(sp.last())
+			committed := d.rng.Int63n(last + 1)
+			if last > hw && d.rng.Intn(3) > 0 {
+				committed = hw + 1 + d.rng.Int63n(last-hw)
+			}
+			mode := "strict"
+			if int64(sp.base) < leo && d.rng.Intn(2) == 0 {
+				mode = "alloc" // not a fresh frontier extension: the replay checks apply
+			}
+			ev = kit.Ev("ExAppend", "c", c, "pid", sp.pid, "b", int64(sp.base), "recs", recsJSON(sp.recs), "mode", mode, "hw", committed)
+		case x < 64: // offers that must be refused: a gap, a taken range, a base that is no proposal end, a known command with other content
+			rs := d.cleanRecs(c, 1)
+			if rs == nil {
+				continue
+			}
+			pid := d.s.pids[d.rng.Intn(len(d.s.pids))]
+			b := d.rng.Int63n(leo + 3)
+			if e := d.ends(c); d.rng.Intn(2) == 0 {
+				b = e[d.rng.Intn(len(e))]
+			}
+			ev = kit.Ev("ExAppend", "c", c, "pid", pid, "b", b, "recs", recsJSON(rs), "mode", "strict", "hw", 0)
+		case x < 74: // suffix replacement
+			e := d.ends(c)
+			keep := e[d.rng.Intn(len(e))]
+			if d.rng.Intn(6) == 0 {
+				keep = d.rng.Int63n(leo + 2)
+			}
+			n := d.rng.Intn(3)
+			var ps []sealedArg
+			var used []int64
+			total := 0
+			for k := 0; k < n; k++ {
+				// a free command, or one that the replacement removes
+				pid := d.freePid(c, used...)
+				for _, sp := range d.s.stored[c] {
+					if int64(sp.last()) > keep && d.rng.Intn(3) == 0 {
+						dup := false
+						for _, u := range used {
+							dup = dup || u == sp.pid
+						}
+						if !dup {
+							pid = sp.pid
+						}
+					}
+				}
+				rs := d.cleanRecs(c, 1)
+				if pid == 0 || rs == nil {
+					break
+				}
+				clash := false
+				for _, p := range ps {
+					clash = clash || p.recs[0].id == rs[0].id ||
+						(rs[0].from != "" && rs[0].no != "" && p.recs[0].from == rs[0].from && p.recs[0].no == rs[0].no)
+				}
+				if clash && d.rng.Intn(4) > 0 {
+					break
+				}
+				used = append(used, pid)
+				ps = append(ps, sealedArg{pid: pid, recs: rs})
+				total++
+			}
+			final := keep + int64(total)
+			committed := hw
+			if final > hw && d.rng.Intn(2) == 0 {
+				committed = hw + d.rng.Int63n(final-hw+1)
+			}
+			if d.rng.Intn(8) == 0 {
+				committed = d.rng.Int63n(final + 1)
+			}
+			if committed > final {
+				committed = final
+			}
+			ev = kit.Ev("Replace", "c", c, "keep", keep, "ps", psJSON(ps), "hw", committed)
+		case x < 82: // a plain append behind the proposals
+			rs := d.cleanRecs(c, 1+d.rng.Intn(2))
+			if rs == nil {
+				continue
+			}
+			mode := []string{"strict", "alloc", "trusted"}[d.rng.Intn(3)]
+			ev = kit.Ev("Append", "c", c, "mode", mode, "base", 0, "recs", recsJSON(rs))
+		case x < 85: // a follower apply, possibly with a watermark
+			rs := d.cleanRecs(c, d.rng.Intn(2))
+			if rs == nil && d.rng.Intn(2) == 0 {
+				continue
+			}
+			committed := int64(0)
+			if d.rng.Intn(2) == 0 {
+				committed = 1 + d.rng.Int63n(leo+int64(len(rs))+1)
+			}
+			ev = kit.Ev("Apply", "c", c, "mode", "trusted", "base", 0, "recs", recsJSON(rs), "hw", committed)
+		case x < 91: // truncation, mostly to the end of a proposal
+			e := d.ends(c)
+			to := e[d.rng.Intn(len(e))]
+			if d.rng.Intn(3) == 0 {
+				to = d.rng.Int63n(leo + 2)
+			}
+			ev = kit.Ev("Truncate", "c", c, "to", to)
+		case x < 94:
+			if leo == 0 {
+				continue
+			}
+			ev = kit.Ev("Adopt", "c", c, "through", 1+d.rng.Int63n(leo))
+		case x < 97:
+			through := d.rng.Int63n(leo + 2)
+			if has, local, _, _ := d.s.retention(c); has {
+				through = local
+			}
+			ev = kit.Ev("Trim", "c", c, "through", through, "lim", d.rng.Intn(3))
+		case x < 98:
+			ev = kit.Ev("Ckpt", "c", c, "hw", 1+d.rng.Int63n(leo+1))
+		default:
+			ev = kit.Ev("CkptMono", "c", c, "hw", 1+d.rng.Int63n(leo+1))
+		}
+		if !d.step(ev) {
 			return
 		}
 	}
@@ -452,6 +739,10 @@ func (r *runner) drive(rec *kit.Recorder) {
 	traces := r.env.Pick(40, 300)
 	for tr := 0; tr < traces; tr++ {
 		d.randomTrace(tr, c08)
+	}
+	exact := r.env.Pick(16, 120)
+	for tr := 0; tr < exact; tr++ {
+		d.exactTrace(tr)
 	}
 	rounds := r.env.Pick(8, 40)
 	if !c08 {
